@@ -18,6 +18,7 @@ type Cell struct {
 	Form string `json:"form"`
 	N    int    `json:"n"`
 	NPos string `json:"npos"`
+	Src  string `json:"src"` // kind of the collection passed as the `sequence` argument
 }
 
 type Outcome struct {
@@ -31,6 +32,7 @@ type Rec struct {
 	Form   string  `json:"form"`
 	N      int     `json:"n"`
 	NPos   string  `json:"npos"`
+	Src    string  `json:"src"`
 	Elem   string  `json:"elem"`
 	Module Outcome `json:"module"`
 	Class  Outcome `json:"class"`
@@ -138,7 +140,7 @@ func withNotation(pos string, notation col.NotationLike, args ...any) []any {
 
 // Run executes one cell for element type t.
 func Run[V comparable](t *T[V], c Cell) Rec {
-	var rec = Rec{Kind: c.Kind, Form: c.Form, N: c.N, NPos: c.NPos, Elem: t.Name, Parse: Outcome{St: "none", D: none}}
+	var rec = Rec{Kind: c.Kind, Form: c.Form, N: c.N, NPos: c.NPos, Src: c.Src, Elem: t.Name, Parse: Outcome{St: "none", D: none}}
 	var notation = cdc.Notation().Make()
 	var vals = make([]V, c.N)
 	for i := range vals {
@@ -155,8 +157,34 @@ func Run[V comparable](t *T[V], c Cell) Rec {
 		gomap[t.Enc(i+1)] = t.Enc(c.N - i)
 	}
 	var args = func(a ...any) []any { return withNotation(c.NPos, notation, a...) }
-	var seqV = func() col.Sequential[V] { return col.List[V](notation).MakeFromArray(vals) }
+	// the `sequence` argument is a collection of any kind (a set keeps its own
+	// order, possibly that of a custom collator; a stack lists top first)
+	var seqV = func() col.Sequential[V] {
+		switch c.Src {
+		case "Array":
+			return col.Array[V](notation).MakeFromArray(vals)
+		case "Set":
+			return col.Set[V](notation).MakeFromArray(vals)
+		case "SetRev":
+			var s = col.Set[V](notation).MakeWithCollator(&reversed[V]{t})
+			for _, v := range vals {
+				s.AddValue(v)
+			}
+			return s
+		case "Stack":
+			return col.Stack[V](notation).MakeFromArray(vals)
+		case "Queue":
+			return col.Queue[V](notation).MakeFromArray(vals)
+		}
+		return col.List[V](notation).MakeFromArray(vals)
+	}
 	var seqA = func() col.Sequential[col.AssociationLike[V, V]] {
+		switch c.Src {
+		case "Array":
+			return col.Array[col.AssociationLike[V, V]](notation).MakeFromArray(assocs)
+		case "Catalog":
+			return col.Catalog[V, V](notation).MakeFromArray(assocs)
+		}
 		return col.List[col.AssociationLike[V, V]](notation).MakeFromArray(assocs)
 	}
 	// the CDCN source of the same data, produced from `any` collections
